@@ -6,6 +6,7 @@ import (
 	"errors"
 	"fmt"
 	"io"
+	"strings"
 	"sync"
 	"sync/atomic"
 	"time"
@@ -86,6 +87,11 @@ type failingDest struct {
 	calls  int64
 	failAt int64
 	pause  chan struct{} // when non-nil, Write waits for a token first
+	// failFrom >= 0: every mutating call from this one on fails (a full disk); the failing calls gather (three of them,
+	// or 30 ms) before they return, so that several background writes fail at the same moment
+	failFrom int64
+	pending  int64
+	full     bool
 }
 
 type failingFile struct {
@@ -96,6 +102,14 @@ type failingFile struct {
 func (d *failingDest) tick() error {
 	n := atomic.AddInt64(&d.calls, 1) - 1
 	if n == d.failAt {
+		return &hackpadfs.PathError{Op: "injected", Path: "dest", Err: errInjected}
+	}
+	if d.full && n >= d.failFrom {
+		atomic.AddInt64(&d.pending, 1)
+		deadline := time.Now().Add(30 * time.Millisecond)
+		for atomic.LoadInt64(&d.pending) < 3 && time.Now().Before(deadline) {
+			time.Sleep(200 * time.Microsecond)
+		}
 		return &hackpadfs.PathError{Op: "injected", Path: "dest", Err: errInjected}
 	}
 	return nil
@@ -176,6 +190,9 @@ func c13Archives() []c13Archive {
 		mk([]tEntry{{name: "big", perm: 0o644, data: fill(150*1024+3000, 7)}, {name: "after", perm: 0o644, data: fill(100, 8)}}),
 		mk([]tEntry{{name: "p/q/r", perm: 0o644, data: fill(1024, 9)}, {name: "p", isDir: true, perm: 0o700}, {name: "s", perm: 0o644, data: fill(3000, 10)}}),
 		mk([]tEntry{{name: "e1", perm: 0o644, data: fill(600, 11)}, {name: "e2", perm: 0o644, data: fill(600, 12)}, {name: "e3", perm: 0o644, data: fill(600, 13)}}),
+		// many small files: several background writes are in flight at once
+		mk([]tEntry{{name: "m0", perm: 0o644, data: fill(300, 20)}, {name: "m1", perm: 0o644, data: fill(40, 21)}, {name: "m2", perm: 0o600, data: fill(513, 22)},
+			{name: "m3", perm: 0o644, data: fill(0, 23)}, {name: "m4", perm: 0o644, data: fill(900, 24)}, {name: "m5", perm: 0o644, data: fill(77, 25)}, {name: "m6", perm: 0o644, data: fill(1, 26)}}),
 		// the same base name at several depths, the big one last: announcements must be by full name
 		mk([]tEntry{{name: "sub/n", perm: 0o644, data: fill(700, 14)}, {name: "t/n", perm: 0o600, data: fill(0, 15)}, {name: "n", perm: 0o644, data: fill(150*1024+2000, 16)}}),
 	}
@@ -344,7 +361,7 @@ func runC13(r *Rng, n int, replay string) {
 	for it := 0; id < n; it++ {
 		ar := archives[it%len(archives)]
 		blocks := (len(ar.data) + 511) / 512
-		mode := []string{"clean", "truncate", "readerr", "cancel", "destfail"}[(it/len(archives))%5]
+		mode := []string{"clean", "truncate", "readerr", "cancel", "destfail", "destfull"}[(it/len(archives))%6]
 		point := r.Intn(blocks + 1)
 		c := &Case{Kind: "stream/" + mode}
 		var names []string
@@ -366,6 +383,10 @@ func runC13(r *Rng, n int, replay string) {
 		dest := &failingDest{fs: newMem().(*mem.FS), failAt: -1, pause: make(chan struct{}, 1024)}
 		if mode == "destfail" {
 			dest.failAt = int64(r.Intn(2*len(ar.entries) + 2))
+		}
+		if mode == "destfull" {
+			// the destination refuses everything from some call on (at the latest from the second one)
+			dest.full, dest.failFrom = true, int64(r.Intn(2))
 		}
 		ctx, cancel := context.WithCancel(context.Background())
 		tfs, err := hptar.NewReaderFS(ctx, sr, hptar.ReaderFSOptions{UnarchiveFS: dest})
@@ -484,6 +505,16 @@ func runC13(r *Rng, n int, replay string) {
 		case <-tfs.Done():
 		case <-time.After(15 * time.Second):
 			c.fail(hdr+": Done() did not fire", "stream:"+mode+":done-stuck")
+		}
+		wedged := false
+		for _, f := range c.Fails {
+			wedged = wedged || strings.HasSuffix(f.Sig, ":open-stuck") || strings.HasSuffix(f.Sig, ":done-stuck")
+		}
+		if wedged {
+			// the reader is wedged: a further Open from this goroutine would never come back
+			cancel()
+			emitC(c)
+			continue
 		}
 		close(results)
 		uerr := tfs.UnarchiveErr()
